@@ -197,7 +197,7 @@ Proof.
   - unfold of_read. prologue_ok Hf. crush I.
   - unfold of_read_at. prologue_ok Hf. crush I.
   - unfold of_write. prologue_ok Hf. crush I.
-  - unfold of_write_at. destruct (Z.ltb off 0); [exact I|]. prologue_ok Hf. crush I.
+  - unfold of_write_at. destruct (has (hd_mode f) OpenAppend); [exact I|]. destruct (Z.ltb off 0); [exact I|]. prologue_ok Hf. crush I.
   - unfold of_seek. prologue_ok Hf. crush I.
   - unfold of_truncate. prologue_ok Hf. crush I.
   - unfold of_stat. prologue_ok Hf. all: crush I.
